@@ -122,4 +122,4 @@ sys.path.insert(0, os.path.dirname(os.path.abspath(__file__)))
 from checks_config import CHECKS
 NOT_APPLICABLE = [dict(property_id=p, reason="check not built yet in this round (planned: generated-input check per DESIGN.md section 4); nothing is claimed for it until its check exists")
                   for p in ALL if p not in CHECKS]
-NOTES = "All checks are property-based tests / fuzzers (rapid v1.3.0, native go fuzz in thorough tiers only). ./check <ID> <tier> rebuilds from /repo's working tree (VERIF_REPO overrides for sensitivity trials), exit 0/1/2 = held / violation / inconclusive-infrastructure."
+NOTES = "All checks are property-based tests / fuzzers (rapid v1.3.0; native go fuzz through rapid.MakeFuzz in thorough tiers only). ./check <ID> <tier> rebuilds from /repo's working tree (VERIF_REPO overrides for sensitivity trials), exit 0/1/2 = held / violation / inconclusive-infrastructure."
